@@ -4,6 +4,7 @@ import (
 	"go/constant"
 	"go/token"
 	"go/types"
+	"sort"
 	"strings"
 
 	"golang.org/x/tools/go/ssa"
@@ -22,10 +23,26 @@ func everyShardAnswers(c *Ctx) {
 		return
 	}
 	n := 0
+	// the goroutine body: a closure of searchStores, or a method it starts with `go` (directly or from a closure)
+	cands := map[*ssa.Function]bool{}
 	for _, cl := range WithClosures(fn) {
-		if cl == fn {
-			continue
+		if cl != fn {
+			cands[cl] = true
 		}
+		for _, call := range CallsIn(cl, nil) {
+			if h := StaticCallee(call); h != nil && h.Blocks != nil && c.P.InRepo(h) && h != fn && FuncName(h) != "(*proxy/search.Ingestor).searchShard" {
+				for _, hc := range WithClosures(h) {
+					cands[hc] = true
+				}
+			}
+		}
+	}
+	var ordered []*ssa.Function
+	for f := range cands {
+		ordered = append(ordered, f)
+	}
+	sort.Slice(ordered, func(i, j int) bool { return FuncName(ordered[i]) < FuncName(ordered[j]) })
+	for _, cl := range ordered {
 		calls := CallsIn(cl, Callee("(*proxy/search.Ingestor).searchShard"))
 		if len(calls) == 0 {
 			continue
@@ -305,7 +322,15 @@ func mappingKeysAreFullPaths(c *Ctx) {
 						}
 					}
 					return false
-				}, func(v ssa.Value) bool { _, isCall := v.(ssa.CallInstruction); return isCall })
+				}, func(v ssa.Value) bool {
+					// a path joined by a helper of the package is still the path; what an outside function returns is not followed
+					cl, isCall := v.(ssa.CallInstruction)
+					if !isCall {
+						return false
+					}
+					h := StaticCallee(cl)
+					return h == nil || !c.P.InRepo(h)
+				})
 				if fromPath {
 					c.Site(mu.Pos(), "%s keys the mapping by the field's path", FuncName(fn))
 				} else {
@@ -353,46 +378,73 @@ func bordersWidenAtomically(c *Ctx) {
 	if fn == nil {
 		return
 	}
-	li := Locksets(fn, nil)
 	n := 0
-	for _, b := range fn.Blocks {
-		for _, in := range b.Instrs {
-			st, ok := in.(*ssa.Store)
-			if !ok {
-				continue
+	for _, l := range c.P.FindLiftedAll(fn, func(in ssa.Instruction) bool {
+		st, ok := in.(*ssa.Store)
+		if !ok {
+			return false
+		}
+		fa, ok := st.Addr.(*ssa.FieldAddr)
+		if !ok {
+			return false
+		}
+		typ, fld, _, okF := FieldOf(fa)
+		return okF && strings.HasSuffix(typ, "frac.Info") && (fld == "From" || fld == "To")
+	}) {
+		st := l.In.(*ssa.Store)
+		_, fld, _, _ := FieldOf(st.Addr.(*ssa.FieldAddr))
+		host := st.Parent()
+		li := Locksets(host, nil)
+		// in a helper that takes no lock itself, the lock state is the one at its call in UpdateStats
+		var outerLi *LockInfo
+		var outerAt ssa.Instruction
+		if len(l.Via) > 0 {
+			outerAt = l.Via[0].(ssa.Instruction)
+			outerLi = Locksets(outerAt.Parent(), nil)
+		}
+		held := func(in ssa.Instruction) bool {
+			if lockHeldW(li, in) {
+				return true
 			}
-			fa, ok := st.Addr.(*ssa.FieldAddr)
-			if !ok {
-				continue
-			}
-			typ, fld, _, okF := FieldOf(fa)
-			if !okF || !strings.HasSuffix(typ, "frac.Info") || (fld != "From" && fld != "To") {
-				continue
-			}
-			n++
-			var stale ssa.Instruction
-			DerivesFrom(st.Val, func(v ssa.Value) bool {
-				switch x := v.(type) {
-				case ssa.CallInstruction:
-					if CallName(x) == "(*frac.Active).Info" && !lockHeldW(li, x.(ssa.Instruction)) {
-						stale = x.(ssa.Instruction)
-					}
-				case *ssa.UnOp:
-					if x.Op == token.MUL {
-						if t, _, _, ok := FieldOf(x.X); ok && strings.HasSuffix(t, "frac.Info") && !lockHeldW(li, x) {
-							stale = x
-						}
+			return outerLi != nil && lockHeldW(outerLi, outerAt)
+		}
+		n++
+		var stale ssa.Instruction
+		DerivesFrom(st.Val, func(v ssa.Value) bool {
+			switch x := v.(type) {
+			case ssa.CallInstruction:
+				if CallName(x) == "(*frac.Active).Info" && !held(x.(ssa.Instruction)) {
+					stale = x.(ssa.Instruction)
+				}
+			case *ssa.UnOp:
+				if x.Op == token.MUL {
+					if t, _, _, ok := FieldOf(x.X); ok && strings.HasSuffix(t, "frac.Info") && !held(x) {
+						stale = x
 					}
 				}
-				return false
-			})
-			if stale != nil {
-				c.Violation("rmw:UpdateStats:"+fld, st.Pos(), "Active.UpdateStats computes the new %s from a border it read before taking infoMu for writing: two index workers that both read before either writes overwrite each other's widening — the fraction then holds documents outside [From, To], IsIntersecting / Contains prune it for their timestamps and sealing persists the stale borders", fld)
-			} else if lockHeldW(li, st) {
-				c.Site(st.Pos(), "info.%s is widened within one write hold of infoMu", fld)
-			} else {
-				c.Violation("rmw:UpdateStats:"+fld+":unlocked", st.Pos(), "Active.UpdateStats stores info.%s without holding infoMu for writing", fld)
 			}
+			return false
+		})
+		// a value handed to the helper as an argument was computed by the caller: it must not come from the info either
+		if stale == nil && len(l.Via) > 0 {
+			for _, a := range l.Via[len(l.Via)-1].Common().Args {
+				DerivesFrom(a, func(v ssa.Value) bool {
+					if x, ok := v.(ssa.CallInstruction); ok && CallName(x) == "(*frac.Active).Info" {
+						if oi := x.(ssa.Instruction); !lockHeldW(Locksets(oi.Parent(), nil), oi) {
+							stale = oi
+						}
+					}
+					return false
+				})
+			}
+		}
+		switch {
+		case stale != nil:
+			c.Violation("rmw:UpdateStats:"+fld, st.Pos(), "Active.UpdateStats computes the new %s from a border it read before taking infoMu for writing: two index workers that both read before either writes overwrite each other's widening — the fraction then holds documents outside [From, To], IsIntersecting / Contains prune it for their timestamps and sealing persists the stale borders", fld)
+		case held(st):
+			c.Site(st.Pos(), "info.%s is widened within one write hold of infoMu", fld)
+		default:
+			c.Violation("rmw:UpdateStats:"+fld+":unlocked", st.Pos(), "Active.UpdateStats stores info.%s without holding infoMu for writing", fld)
 		}
 	}
 	if n == 0 {
@@ -660,34 +712,51 @@ func loadedMeansLoaded(c *Ctx) {
 	if fn == nil {
 		return
 	}
-	li := Locksets(fn, nil)
 	loads := c.P.FindLifted(fn, CallSel(Callee("(*frac.Loader).Load")))
 	if len(loads) == 0 {
 		c.Undecided("load:Sealed.load:no-loader", fn.Pos(), "Sealed.load no longer loads through Loader.Load")
 		return
 	}
-	load := loads[0].Top()
-	heldW := func(in ssa.Instruction) bool {
-		for path, mode := range li.HeldPaths(in) {
-			if strings.HasSuffix(path, "loadMu") && mode == 2 {
+	// lock state of an instruction: in its own function, or — in a helper that takes no lock — at the helper's call in load
+	heldW := func(l Lifted) bool {
+		check := func(in ssa.Instruction) bool {
+			for path, mode := range Locksets(in.Parent(), nil).HeldPaths(in) {
+				if strings.HasSuffix(path, "loadMu") && mode == 2 {
+					return true
+				}
+			}
+			return false
+		}
+		if check(l.In) {
+			return true
+		}
+		for _, v := range l.Via {
+			if check(v.(ssa.Instruction)) {
 				return true
 			}
 		}
 		return false
 	}
+	load := loads[0]
 	if heldW(load) {
-		c.Site(load.Pos(), "the index is loaded with loadMu held")
+		c.Site(load.In.Pos(), "the index is loaded with loadMu held")
 	} else {
-		c.Violation("load:Sealed.load:unlocked-load", load.Pos(), "Sealed.load reads the index without holding loadMu: a second request does not wait for the first one's load")
+		c.Violation("load:Sealed.load:unlocked-load", load.In.Pos(), "Sealed.load reads the index without holding loadMu: a second request does not wait for the first one's load")
 	}
 	n := 0
-	for _, in := range InstrsIn(fn, FieldStore("frac.Sealed", "isLoaded")) {
-		st := in.(*ssa.Store)
+	for _, l := range c.P.FindLiftedAll(fn, FieldStore("frac.Sealed", "isLoaded")) {
+		st := l.In.(*ssa.Store)
 		if b, ok := ConstBool(st.Val); !ok || !b {
 			continue
 		}
 		n++
-		if Dominates(load, st) && heldW(st) {
+		after := false
+		if st.Parent() == load.In.Parent() {
+			after = Dominates(load.In, st)
+		} else {
+			after = LiftedDominates(load, l)
+		}
+		if after && heldW(l) {
 			c.Site(st.Pos(), "isLoaded is set after the tables were loaded, in the same hold")
 		} else {
 			c.Violation("load:Sealed.load:flag-before-tables", st.Pos(), "Sealed.load sets isLoaded before Loader.Load has filled the tables (or outside the lock): a request that arrives while the first one is still reading the .index file does not wait and works on empty tables — fetch answers 'not found' for stored documents, a search panics on the nil LID table")
